@@ -1,4 +1,4 @@
-import Nstd.Str.LemmasStep
+import Nstd.Str.LemmasTotal2
 import Nstd.Str.LemmasQuery
 /-!
   The C string a query sees (`cstrVar` after the view was taken) is the abstract value of the
@@ -174,5 +174,51 @@ theorem startsWith_eq {s : St} (h : Inv s) {v w : Nat} {r : Bool} (e : startsWit
     rw [List.prefix_iff_eq_take, lw]
     simp only [beq_iff_eq]
     exact eq_comm
+
+/-! ### the queries do not fault on specified, NUL-free values -/
+
+theorem views2_some {s : St} (h : Inv s) {v w : Nat} (hv : v < s.n) (hw : w < s.n) {a b : List Nat}
+    (ha : allSome (absVar s v) = some a) (hb : allSome (absVar s w) = some b)
+    (hza : ∀ x ∈ a, x ≠ 0) (hzb : ∀ x ∈ b, x ≠ 0) :
+    ∃ s1 s2, cview s v = some s1 ∧ cview s1 w = some s2 ∧ cstrVar s2 v 0 = some a ∧ cstrVar s2 w 0 = some b := by
+  obtain ⟨s1, h1⟩ := cview_some h v
+  have S1 := silent_cview h hv h1
+  obtain ⟨s2, h2⟩ := cview_some S1.inv w
+  obtain ⟨ea, eb, _⟩ := views2 h hv hw h1 h2 ha hb hza hzb
+  exact ⟨s1, s2, h1, h2, ea, eb⟩
+
+theorem view1_some {s : St} (h : Inv s) {v : Nat} (hv : v < s.n) {a : List Nat}
+    (ha : allSome (absVar s v) = some a) (hza : ∀ x ∈ a, x ≠ 0) :
+    ∃ s1, cview s v = some s1 ∧ cstrVar s1 v 0 = some a ∧ content s1 v = some (a.map some) := by
+  obtain ⟨s1, h1⟩ := cview_some h v
+  obtain ⟨E, t⟩ := eff_cview h hv h1
+  refine ⟨s1, h1, cstrVar_eq E.inv t (by rw [E.self]; exact ha) hza, ?_⟩
+  rw [content_eq E.inv v, E.self, allSome_eq ha]
+
+theorem queries_total {s : St} (h : Inv s) {v w : Nat} (hv : v < s.n) (hw : w < s.n) {a b : List Nat}
+    (ha : allSome (absVar s v) = some a) (hb : allSome (absVar s w) = some b)
+    (hza : ∀ x ∈ a, x ≠ 0) (hzb : ∀ x ∈ b, x ≠ 0) (n : Nat) (needle : List Nat) (skip : Bool) (c : Nat) :
+    (compareS s v w).isSome ∧ (compareN s v w n).isSome ∧ (compareIC s v w).isSome ∧ (compareICN s v w n).isSome ∧
+    (findS s v needle).isSome ∧ (findLastS s v needle).isSome ∧ (findOneOf s v needle).isSome ∧
+    (findLastOf s v needle).isSome ∧ (split s v needle skip).isSome ∧
+    (findC s v c).isSome ∧ (findLastC s v c).isSome ∧ (equalS s v w).isSome := by
+  obtain ⟨s1, s2, h1, h2, ea, eb⟩ := views2_some h hv hw ha hb hza hzb
+  obtain ⟨t1, g1, ca, cc⟩ := view1_some h hv ha hza
+  obtain ⟨dv, hdv⟩ := desc_some h v
+  obtain ⟨dw, hdw⟩ := desc_some h w
+  refine ⟨?_, ?_, ?_, ?_, ?_, ?_, ?_, ?_, ?_, ?_, ?_, ?_⟩
+  · simp [compareS, h1, h2, ea, eb]
+  · simp [compareN, h1, h2, ea, eb]
+  · simp [compareIC, h1, h2, ea, eb]
+  · simp [compareICN, h1, h2, ea, eb]
+  · simp [findS, g1, ca]
+  · simp [findLastS, g1, ca]
+  · simp [findOneOf, g1, ca]
+  · simp [findLastOf, g1, ca]
+  · simp [split, g1, ca, cc]
+  · simp [findC, contentVal_eq h, ha]
+  · simp [findLastC, contentVal_eq h, ha]
+  · simp only [equalS, hdv, hdw, Option.bind_eq_bind, Option.bind_some, contentVal_eq h, ha, hb, Option.pure_def]
+    split <;> rfl
 
 end Nstd.Str
